@@ -12,7 +12,7 @@
    that, any number of read-only operations is applied in any order:
         bool, oracles, counts, data,            \* accessors (of the result / of its test)
         table(v), plot(v), full(v), rst(v),     \* representations at verbosity v
-        draw(v)                                 \* ... drawn by the plotting back-end
+        draw(v),                                \* ... drawn by the plotting back-end
         fingerprint, copy, pickle,              \* identity / duplication
         reeval                                  \* obtaining the result again, in the same way
    (the sets of operation names are constants: the harness binds each name to
